@@ -49,7 +49,32 @@ COMPONENTS = {"real": ["parser, generator, graphs, mol_prob, force-field typing,
 
 OPS = ["gen_seeded", "gen_seeded", "gen_seeded", "gen_global", "print", "parse_again", "elements_mutate", "mirror_mutate",
        "mirror_generate", "reaction_graph", "atom_graph", "ensemble_prob", "typing", "perturb_global", "gen_fault", "system_iter",
-       "gen_seeded_sim", "atom_graph_generate", "ensemble_prob_value"]
+       "gen_seeded_sim", "atom_graph_generate", "ensemble_prob_value", "natural_failure", "natural_failure"]
+
+# Operations that fail on their own (no injected fault): whatever error path they take must leave nothing behind that a later
+# operation can see -- in the objects, in the library's modules, or in process-wide settings of numpy / RDKit.
+NATURAL_FAILURES = [
+    ("generate", "{[$][$]CC[$][]}|gauss(100,10)|"),  # stochastic object with a non-empty left terminal and no prefix
+    ("generate", "{[][$]CC[$], [$|0.2|]CO[>]; [$][H][]}|gauss(400, 20)|"),  # a unit that leaves a descriptor without any partner
+    ("generate", "C{[>][<|-1|]CC[>][<]}|gauss(50, 5)|C"),  # negative weight: not generable
+    ("generate", "C{[>][<]CC[>][<]}C"),  # no distribution: not generable
+    ("generate", "CC{[>][<|0 3|]CC[>|1 0|], [<]CO[>][<]}|gauss(90, 10)|C"),  # transition list of the wrong length
+    ("parse", "CC{[>][<]CC[>][<}|gauss(90, 10)|C"),
+    ("parse", "CC{[>][<]C(C[>][<]}|gauss(90, 10)|C"),
+    ("parse", "CC{[>][?]CC[>][<]}|gauss(90, 10)|C"),
+    ("parse", "CC{[>][<]CC[>][<]}|weibull(90, 10)|C"),
+    ("parse", "CCO.|130%|CC.|10%|"),
+    ("system_generator", "CCO.|50%|CC"),  # mass unknown: not generable
+    ("ensemble_prob", "not-a-smiles(("),
+    ("typing_partial", "[<]CC[>]"),
+]
+# inputs whose generation walks through numerically delicate code (division by zero in a power, underflow in exp, zero
+# width): they come out the same in a pristine process and after any history
+SENSITIVE_INPUTS = [
+    "C{[>][<]CC[>][<]}|schulz_zimm(1000, 450)|C", "C{[>][<]CC[>][<]}|log_normal(100, 1.0001)|C", "C{[>][<]CC[>][<]}|gauss(100, 0)|C",
+    "C{[>][<]CCO[>][<]}|poisson(0.5)|C", "C{[>][<|0|]CC[>|0|][<]}|gauss(100, 10)|C", "C{[>][<]CC[>][<]}|flory_schulz(0.9)|C",
+    "C{[>][<]CC[>][<]}|uniform(5, 6)|C",
+]
 
 
 def plan(tier):
@@ -281,6 +306,8 @@ def spec_from_seed(run_seed, tier):
 
                 t = re.sub(r"\|[a-z_]+\([^)]*\)\|", lambda m: "|schulz_zimm(%d, %d)|" % (rnd.choice([130, 210]), rnd.choice([100, 160])) if False else "|schulz_zimm(208, 160)|", t)
             inputs.append({"text": t, "kind": "molecule"})
+    if rnd.random() < 0.3:
+        inputs[rnd.randrange(n_in)] = {"text": rnd.choice(SENSITIVE_INPUTS), "kind": "molecule"}
     # sibling inputs: the same tokens with other weights / another law / other parameters in the same history, so that state
     # keyed by part of a string (token text, printed form without extensions, family name) collides between two objects
     if n_in >= 2 and inputs[0]["kind"] == "molecule" and rnd.random() < 0.4:
@@ -299,6 +326,8 @@ def spec_from_seed(run_seed, tier):
             o["frac"] = rnd.random()
         if op == "perturb_global":
             o["n"] = rnd.choice([1, 3, 17, 100])
+        if op == "natural_failure":
+            o["which"] = rnd.randrange(len(NATURAL_FAILURES))
         ops.append(o)
     enum = None
     if tier == "thorough" and rnd.random() < 0.4:
@@ -516,6 +545,27 @@ class _Client:
             return None
         if op == "gen_fault":
             return self.faulted_generate(o, obj, o["fault"], None, o["frac"])
+        if op == "natural_failure":
+            kind, text = NATURAL_FAILURES[o["which"] % len(NATURAL_FAILURES)]
+            self.mutating += 1
+            try:
+                if kind == "parse":
+                    (g.System if ".|" in text else g.Molecule)(text)
+                elif kind == "generate":
+                    g.Molecule(text).generate(rng=np.random.default_rng(o["seed"]))
+                elif kind == "system_generator":
+                    next(g.System(text).generator)
+                elif kind == "ensemble_prob":
+                    if inp["kind"] == "molecule":
+                        g.mol_prob.get_ensemble_prob(text, obj)
+                elif kind == "typing_partial":
+                    g.SmilesToken(text, 0, 0).generate().get_forcefield_types(None, None)
+                self.count("natural_failure_did_not_fail")
+            except SimAbort:
+                raise
+            except Exception:
+                self.count("natural_failures")
+            return None
         return None
 
     def faulted_generate(self, o, obj, fault, k, frac=None):
